@@ -30,6 +30,15 @@ func (s *Struct) Build(gen Generator, ctx *MethodContext, sourceID *xtype.JenID,
 }
 
 func (s *Struct) Assign(gen Generator, ctx *MethodContext, assignTo *AssignTo, sourceID *xtype.JenID, source, target *xtype.Type, errPath ErrorPath) ([]jen.Code, *Error) {
+	// The field settings of the method were written for its own source
+	// struct: a nested conversion into the same target type from another
+	// struct is built without them.
+	if ctx.FieldsTarget == target.String && !isFieldSettingsSource(ctx, source) {
+		fieldsTarget := ctx.FieldsTarget
+		ctx.FieldsTarget = ""
+		defer func() { ctx.FieldsTarget = fieldsTarget }()
+	}
+
 	// autoMap is a field setting of the method: like goverter:map and
 	// goverter:ignore it only applies to the struct the method converts, not
 	// to unnamed structs nested in it.
@@ -161,6 +170,17 @@ func (s *Struct) Assign(gen Generator, ctx *MethodContext, assignTo *AssignTo, s
 	}
 
 	return stmt, nil
+}
+
+func isFieldSettingsSource(ctx *MethodContext, source *xtype.Type) bool {
+	if ctx.Conf.Definition == nil || ctx.Conf.Source == nil {
+		return true
+	}
+	methodSource := ctx.Conf.Source
+	if methodSource.Pointer {
+		methodSource = methodSource.PointerInner
+	}
+	return methodSource.String == source.String
 }
 
 func shouldCheckAgainstZero(ctx *MethodContext, s, t *xtype.Type, isUpdate, call bool) bool {
